@@ -68,10 +68,12 @@ def check_names(idx: Index, rep: Report) -> None:
     # ---- R2: injectivity of the naming scheme
     r = rep.rule("C04.R2", "names printed for distinct values / blocks cannot collide: stored hints never look like '<hint>_<n>', a number, or an automatic block name", floor=3)
     # model of extract_valid_name
+    evcfg = CFG(ev.node)
     strip_stmts = [n for n in walk_local(ev.node) if isinstance(n, (ast.If, ast.While)) and "_VALUE_NAME_SUFFIX_PATTERN.search" in unparse(n.test)]
-    if not strip_stmts:
+    strip_rets = [n for n in walk_local(ev.node) if isinstance(n, ast.Return) and n.value is not None and re.search(r"\[:.*_VALUE_NAME_SUFFIX_PATTERN\.search\(.*\)\.start\(\)\]", resolved_text(evcfg, n.value, evcfg.node_of(n)))]
+    if not strip_stmts and not strip_rets:
         raise AnalysisError(f"{ev.fq}: suffix stripping via _VALUE_NAME_SUFFIX_PATTERN.search not found")
-    fixpoint = any(isinstance(n, ast.While) for n in strip_stmts)
+    fixpoint = any(isinstance(n, ast.While) and "_VALUE_NAME_SUFFIX_PATTERN.search" in resolved_text(evcfg, n.test, evcfg.node_of(n.test)) for n in walk_local(ev.node))
     sp = suf_pat
     if not sp.endswith("$"):
         raise AnalysisError(f"suffix pattern {sp!r} is not anchored at the end")
@@ -89,49 +91,94 @@ def check_names(idx: Index, rep: Report) -> None:
         raise AnalysisError("suffix language contains the empty word")
     H = rx.strip_suffix_image(L, S, fixpoint=fixpoint)
     Hne = rx._minus_suffix(H, _eps())
-    # printer scheme
-    pv = idx.func(PRINTER, "Printer.print_ssa_value")
-    txt = unparse(pv.node)
-    if not ("f'_{curr_ind}'" in txt and "f'{value.name_hint}{suffix}'" in txt and "_get_new_valid_name_id" in txt and "curr_ind != 0" in txt):
-        raise AnalysisError(f"{pv.fq}: naming scheme `<hint>` / `<hint>_<n>` / `<number>` not recognised")
-    gen_suffix = rx.from_regex(r"_[1-9][0-9]*")
-    w = rx.intersect_witness(Hne, rx.concat(Hne, gen_suffix))
-    inst = "values: hint vs hint_<n>"
-    if w is None:
-        r.ok(inst, f"stored hints ∩ (stored hints · _[1-9][0-9]*) = ∅ ({'fixpoint' if fixpoint else 'single'} suffix stripping)")
-    else:
-        ws = rx.show(w)
-        base = ws[: ws.rfind("_")]
-        r.fail(inst, Finding("C04.R2", ev.fq, "suffix-collision", f"the hint `{ws}_9` is stored as `{ws}` (only one `_<n>` suffix is removed) and printed as `%{ws}`, which is also the name the printer generates for the {ws[ws.rfind('_') + 1:]}-th repeat of hint `{base}`: two values print the same name", ev.loc))
-    w = rx.intersect_witness(Hne, rx.from_regex(r"[0-9]+"))
-    inst = "values: hint vs number"
-    if w is None:
-        r.ok(inst, "stored hints ∩ [0-9]+ = ∅")
-    else:
-        r.fail(inst, Finding("C04.R2", ev.fq, "numeric-collision", f"the stored hint `{rx.show(w)}` collides with an automatically numbered value", ev.loc))
-    pb = idx.func(PRINTER, "Printer._populate_block_name")
-    btxt = unparse(pb.node)
-    autos = re.findall(r"f'bb\{[^}]*\}'", btxt)
-    if not autos:
-        raise AnalysisError(f"{pb.fq}: automatic block names `bb<n>` not recognised")
-    w = rx.intersect_witness(Hne, rx.from_regex(r"bb[0-9]+"))
-    inst = "blocks: hint vs bb<n>"
+    # printer scheme: the shapes of the names stored for values / blocks, derived from the code (xsa.strlang)
+    from ..strlang import StrLang, show as show_alt
+
+    def scheme(q: str, table: str, int_names: set[str]):
+        fi = idx.func(PRINTER, q)
+        methods = {nm: d[0].raw_node for nm, d in fi.cls.methods.items()} if fi.cls is not None else {}
+        sl = StrLang(fi.node, CFG(fi.node), methods, int_names)
+        alts = []
+        for st in walk_local(fi.node):
+            if isinstance(st, ast.Assign) and isinstance(st.targets[0], ast.Subscript) and unparse(st.targets[0].value) == table:
+                for a_ in sl.alts(st.value, sl.cfg.node_of(st)):
+                    if a_ not in alts:
+                        alts.append(a_)
+        if not alts:
+            raise AnalysisError(f"{fi.fq}: no store of a generated name into {table} found")
+        return fi, alts
+
+    def lang_of(alt, fi):
+        n = None
+        kinds = []
+        for atom in alt:
+            if atom[0] == "lit":
+                piece = rx.from_regex(re.escape(atom[1]))
+                kinds.append("lit")
+            elif atom[0] == "str" and atom[1].endswith(".name_hint"):
+                piece = Hne
+                kinds.append("hint")
+            elif atom[0] == "int":
+                piece = rx.from_regex(r"[1-9][0-9]*" if atom[2] else r"[0-9]+")
+                kinds.append("int")
+            else:
+                raise AnalysisError(f"{fi.fq}: generated name `{show_alt(alt)}` contains a piece whose language is unknown")
+            n = piece if n is None else rx.concat(n, piece)
+        if n is None:
+            raise AnalysisError(f"{fi.fq}: an empty name can be generated")
+        return n, tuple(kinds)
+
+    pv, valts = scheme("Printer.print_ssa_value", "self._ssa_values", set())
+    vl = [(a_, *lang_of(a_, pv)) for a_ in valts]
+    if not any(k and k[0] == "hint" for _, _, k in vl) or not any(k == ("int",) for _, _, k in vl):
+        raise AnalysisError(f"{pv.fq}: naming scheme `<hint>` / `<hint>_<n>` / `<number>` not recognised (found {[show_alt(a_) for a_ in valts]})")
+    for i_, (a1, l1, k1) in enumerate(vl):
+        for a2, l2, k2 in vl[i_ + 1:]:
+            w = rx.intersect_witness(l1, l2)
+            numeric = ("int",) in (k1, k2)
+            inst = "values: hint vs number" if numeric else "values: hint vs hint_<n>"
+            if w is None:
+                r.ok(inst, f"names `{show_alt(a1)}` and `{show_alt(a2)}` are disjoint ({'fixpoint' if fixpoint else 'single'} suffix stripping of stored hints)")
+            elif numeric:
+                r.fail(inst, Finding("C04.R2", ev.fq, "numeric-collision", f"the name `{rx.show(w)}` can be generated both as `{show_alt(a1)}` and as `{show_alt(a2)}`: a stored hint collides with an automatically numbered value", ev.loc))
+            else:
+                ws = rx.show(w)
+                base = ws[: ws.rfind("_")] if "_" in ws else ws
+                r.fail(inst, Finding("C04.R2", ev.fq, "suffix-collision", f"the name `{ws}` can be generated both as `{show_alt(a1)}` and as `{show_alt(a2)}`: a hint stored as `{ws}` (only one `_<n>` suffix is removed, or the repeat counter can print 0) equals the name the printer generates for a repeat of hint `{base}`: two values print the same name", ev.loc))
+    pb, balts = scheme("Printer._populate_block_name", "self._blocks", {"block_index"})
+    bl = [(a_, *lang_of(a_, pb)) for a_ in balts]
+    if not any(k == ("lit", "int") for _, _, k in bl):
+        raise AnalysisError(f"{pb.fq}: automatic block names `bb<n>` not recognised (found {[show_alt(a_) for a_ in balts]})")
     consults = False
     for n in walk_local(pb.node):
         # does the automatic branch consult / register the taken names?
         if isinstance(n, ast.Assign) and "f'bb{" in unparse(n.value):
-            blk = n
             from ..astutil import parent_map
 
             pm = parent_map(pb.node)
-            par = pm[id(blk)]
-            body_txt = " ".join(unparse(s) for s in getattr(par, "body", []) + getattr(par, "orelse", []))
+            par = pm[id(n)]
+            body_txt = " ".join(unparse(s_) for s_ in getattr(par, "body", []) + getattr(par, "orelse", []))
             if "self.block_names" in body_txt and ("while" in unparse(par) or "in self.block_names" in unparse(par)):
                 consults = True
-    if w is None or consults:
-        r.ok(inst, "stored block hints cannot equal an automatic bb<n> name (or the printer checks)")
-    else:
-        r.fail(inst, Finding("C04.R2", pb.fq, "block-name-collision", f"a block with hint `{rx.show(w)}` prints as `^{rx.show(w)}`, the same label the printer gives to an unnamed block with that index, and the automatic branch does not consult block_names", pb.loc))
+    reported = set()
+    for i_, (a1, l1, k1) in enumerate(bl):
+        for a2, l2, k2 in bl[i_ + 1:]:
+            if ("hint" in k1) == ("hint" in k2) and ("lit", "int") in (k1, k2):
+                continue
+            if "hint" not in k1 + k2 or (k1 == ("lit", "int") and k2 == ("lit", "int")):
+                continue
+            auto = ("lit", "int") in (k1, k2)
+            w = rx.intersect_witness(l1, l2)
+            inst = "blocks: hint vs bb<n>" if auto else "blocks: hint vs hint_<n>"
+            if w is None or (auto and consults):
+                r.ok(inst, f"block names `{show_alt(a1)}` and `{show_alt(a2)}` cannot collide (or the printer checks)")
+            elif auto and inst in reported:
+                continue
+            elif auto:
+                reported.add(inst)
+                r.fail(inst, Finding("C04.R2", pb.fq, "block-name-collision", f"a block with hint `{rx.show(w)}` prints as `^{rx.show(w)}`, the same label the printer gives to an unnamed block with that index, and the automatic branch does not consult block_names", pb.loc))
+            else:
+                r.fail(inst, Finding("C04.R2", pb.fq, "suffix-collision", f"the block label `{rx.show(w)}` can be generated both as `{show_alt(a1)}` and as `{show_alt(a2)}`", pb.loc))
 
 
 def check_ident_or_string(idx: Index, rep: Report) -> None:
